@@ -253,14 +253,20 @@ impl<'a, D: Dataset + ?Sized> ExecState<'a, D> {
     ) -> Result<Bindings<'a, D>, SparqlWrapperError<D::Error>> {
         match name {
             NamedNodePattern::NamedNode(nn) => {
-                let graph_matcher = vec![Some(ArcTerm::Iri(IriRef::new_unchecked(
-                    self.stash.copy_str(nn.as_str()),
-                )))];
+                let name = ArcTerm::Iri(IriRef::new_unchecked(self.stash.copy_str(nn.as_str())));
+                if !self.graph_exists(&name)? {
+                    return self.no_solution(inner, binding);
+                }
+                let graph_matcher = vec![Some(name)];
                 self.select(inner, &graph_matcher, binding)
             }
             NamedNodePattern::Variable(var) => {
                 if let Some(name) = binding.and_then(|b| b.v.get(var.as_str())) {
-                    let graph_matcher = vec![Some(name.inner().clone())];
+                    let name = name.inner().clone();
+                    if !self.graph_exists(&name)? {
+                        return self.no_solution(inner, binding);
+                    }
+                    let graph_matcher = vec![Some(name)];
                     self.select(inner, &graph_matcher, binding)
                 } else {
                     let Bindings { variables, .. } = self.select(inner, &[], binding)?;
@@ -272,13 +278,36 @@ impl<'a, D: Dataset + ?Sized> ExecState<'a, D> {
                         .collect::<Result<BTreeSet<_>, _>>()
                         .map_err(SparqlWrapperError::Dataset)?;
                     if graph_names.is_empty() {
-                        self.select(inner, &[], binding)
+                        self.no_solution(inner, binding)
                     } else {
                         self.graph_rec(var.as_str(), graph_names.into_iter(), inner, binding)
                     }
                 }
             }
         }
+    }
+
+    /// Whether `name` is the name of a graph of the dataset
+    /// (evaluating a pattern against a graph that does not exist yields no solution,
+    /// even if that pattern is empty).
+    fn graph_exists(&self, name: &ArcTerm) -> Result<bool, SparqlWrapperError<D::Error>> {
+        for gn in self.config().dataset.graph_names() {
+            if Term::eq(&gn.map_err(SparqlWrapperError::Dataset)?, name) {
+                return Ok(true);
+            }
+        }
+        Ok(false)
+    }
+
+    /// Empty bindings with the variables of `inner`
+    fn no_solution(
+        &mut self,
+        inner: &GraphPattern,
+        binding: Option<&Binding>,
+    ) -> Result<Bindings<'a, D>, SparqlWrapperError<D::Error>> {
+        let Bindings { variables, .. } = self.select(inner, &[], binding)?;
+        let iter = Box::new(std::iter::empty());
+        Ok(Bindings { variables, iter })
     }
 
     fn graph_rec(
